@@ -478,6 +478,11 @@ func (m *model) Actions() []string {
 	out = append(out, "read", "readall", "merge")
 	if !m.p.Mem {
 		out = append(out, "reopen", "delclocks(all)")
+		if refs, _ := m.repo.ListRefs("refs/bugs/"); len(refs) >= 2 {
+			// the rebuild of deleted clocks fails half-way (the ref met last is damaged), the
+			// damage is repaired, the repository is opened again
+			out = append(out, "brokenrebuild")
+		}
 		if m.p.DelSingle {
 			out = append(out, "delclocks(edit)", "delclocks(create)")
 		}
@@ -679,6 +684,12 @@ func (m *model) Apply(a string) (string, []xstate.Violation, error) {
 		if m.repo == nil {
 			return outcome, s.viol, nil
 		}
+	case "brokenrebuild":
+		deleted = []string{editClock, createClock}
+		outcome = m.brokenRebuild(s, deleted)
+		if m.repo == nil {
+			return outcome, s.viol, nil
+		}
 	case "identmut":
 		outcome = m.identMut(s)
 	default:
@@ -773,6 +784,65 @@ func (m *model) merge(s *step) string {
 	return strings.Join(tags, "+")
 }
 
+// brokenRebuild: the clock files are lost and, while they are being rebuilt, the loader fails on
+// the bug ref it meets last (it points to a commit without clocks), after every other local bug
+// was witnessed. The ref is then repaired and the repository opened again: the statement asks
+// for clocks rebuilt to at least the stored maximum, however the earlier attempt ended.
+func (m *model) brokenRebuild(s *step, names []string) string {
+	gr := m.w.Repos["A"]
+	refs, err := gr.ListRefs("refs/bugs/")
+	if err != nil || len(refs) < 2 {
+		s.add("c05.harness", "brokenrebuild-without-refs", "%v", err)
+		return "skipped"
+	}
+	victim := refs[len(refs)-1]
+	good, err := gr.ResolveRef(victim)
+	if err != nil {
+		s.add("c05.harness", "brokenrebuild-resolve", "%v", err)
+		return "skipped"
+	}
+	// an existing commit that is not an operation pack (no clock entries in its tree): nothing is
+	// written, so no seam counter moves and the repaired state equals the one delclocks reaches
+	bad, err := gr.ResolveRef("refs/identities/" + string(m.userA))
+	if err == nil {
+		err = gr.UpdateRef(victim, bad)
+	}
+	if err != nil {
+		s.add("c05.harness", "brokenrebuild-damage", "%v", err)
+		return "skipped"
+	}
+	_ = gr.Close()
+	delete(m.w.Repos, "A")
+	m.repo = nil
+	for _, n := range names {
+		if err := os.Remove(filepath.Join(m.gitdir, world.Namespace, "clocks", n)); err != nil && !os.IsNotExist(err) {
+			s.add("c05.harness", "cannot-delete", "%v", err)
+		}
+	}
+	outcome := "first-open-failed"
+	if r, err := repository.OpenGoGitRepo(m.pathA, world.Namespace, loaders); err == nil {
+		// the statement does not say that opening must fail on a damaged ref
+		outcome = "first-open-succeeded"
+		_ = r.Close()
+	}
+	// repair through a handle that rebuilds nothing
+	r, err := repository.OpenGoGitRepo(m.pathA, world.Namespace, nil)
+	if err == nil {
+		err = r.UpdateRef(victim, good)
+		_ = r.Close()
+	}
+	if err != nil {
+		s.add("c05.harness", "brokenrebuild-repair", "%v", err)
+		return "skipped"
+	}
+	if err := m.reopen(); err != nil {
+		s.add("c05.rebuild", "open-after-failed-rebuild-fails", "opening the repaired repository after a failed clock rebuild failed: %v", err)
+		return "open-error"
+	}
+	m.checkRebuilt(s, names, "after a clock rebuild that failed half-way, repair and re-opening", "-after-failed-rebuild")
+	return outcome + "+rebuilt"
+}
+
 func (m *model) delClocks(s *step, names []string) string {
 	gr := m.w.Repos["A"]
 	_ = gr.Close()
@@ -785,12 +855,21 @@ func (m *model) delClocks(s *step, names []string) string {
 		s.add("c05.rebuild", "open-after-clock-deletion-fails", "opening the repository after its clock files were deleted failed: %v", err)
 		return "open-error"
 	}
+	if !m.checkRebuilt(s, names, fmt.Sprintf("after deleting %v and re-opening", names), "") {
+		return "open-error"
+	}
+	return "rebuilt"
+}
+
+// checkRebuilt: each of the named clocks, live and persisted, is at least the maximum stored in
+// the local bugs; those then count as seen.
+func (m *model) checkRebuilt(s *step, names []string, when, sigSuffix string) bool {
 	// the loader rebuilt the clocks from the local entities: they count as seen from now on
 	edit, create, dags := m.localMax()
 	live, err := m.liveClocks()
 	if err != nil {
-		s.add("c05.rebuild", "clocks-unusable-after-rebuild", "%v", err)
-		return "open-error"
+		s.add("c05.rebuild", "clocks-unusable-after-rebuild"+sigSuffix, "%v", err)
+		return false
 	}
 	file, _ := m.fileClocks()
 	for _, n := range names {
@@ -802,17 +881,17 @@ func (m *model) delClocks(s *step, names []string) string {
 			continue
 		}
 		if live[n] < want {
-			s.add("c05.rebuild", "rebuilt-clock-below-stored-maximum", "after deleting %v and re-opening, clock %s is %d, below the maximum %d stored in the local bugs", names, n, live[n], want)
+			s.add("c05.rebuild", "rebuilt-clock-below-stored-maximum"+sigSuffix, "%s, clock %s is %d, below the maximum %d stored in the local bugs", when, n, live[n], want)
 		}
 		if file[n] < want {
-			s.add("c05.rebuild", "rebuilt-clock-file-below-stored-maximum", "after deleting %v and re-opening, the persisted clock %s is %d, below the maximum %d stored in the local bugs", names, n, file[n], want)
+			s.add("c05.rebuild", "rebuilt-clock-file-below-stored-maximum"+sigSuffix, "%s, the persisted clock %s is %d, below the maximum %d stored in the local bugs", when, n, file[n], want)
 		}
 	}
 	for _, d := range dags {
 		m.markSeen(d)
 	}
 	m.delSinceID = true
-	return "rebuilt"
+	return true
 }
 
 func (m *model) identMut(s *step) string {
